@@ -1,7 +1,7 @@
 """C04 -- see DESIGN.md section 4, C04."""
 from . import handlers, sqlunits
 
-LEVEL = "other"
+LEVEL = "proof"
 EXPLANATION = "trace obligations of the real handlers (layer L2) selected by the prefix C04/"
 ASSUMPTIONS = []
 TRUSTED = []
